@@ -694,6 +694,108 @@ def gen_inputs_desc(cls, desc, rng, tier, budget, greedy):
                 bb = bytearray(base)
                 bb[o:o + w] = int(v).to_bytes(w, 'little')
                 out.append(bytes(bb))
+    # polymorphic parts: for every registered layout the canonical encoding, each object field at its boundary values,
+    # and the non-canonical variants (declared length one too long; object present although the skip flag is set)
+    def rec_size(its):
+        return sum(KS[x['kind']] if x['t'] == 'field' else len(x['bytes']) if x['t'] == 'pad' else x['n'] for x in its)
+
+    def rec_variants(its, per_field):
+        z = bytearray(rec_size(its))
+        yield bytes(z)
+        o = 0
+        for x in its:
+            if x['t'] == 'field':
+                for v in field_values(x, rng, thorough)[:per_field]:
+                    bb = bytearray(z); bb[o:o + KS[x['kind']]] = int(v).to_bytes(KS[x['kind']], 'little'); yield bytes(bb)
+                o += KS[x['kind']]
+            elif x['t'] == 'str':
+                for sv in (b'A', b'caf\xc3\xa9', b'x' * x['n'], b'\xff', b'a\x00b'):
+                    bb = bytearray(z); bb[o:o + min(len(sv), x['n'])] = sv[:x['n']]; yield bytes(bb)
+                o += x['n']
+            else:
+                o += len(x['bytes'])
+    fld = {x.get('name'): (o, x) for o, x in plan if x['t'] == 'field'}
+    for it in items:
+        if it['t'] == 'switch':
+            to, tf = fld[it['tag']]
+            for tv, case in it['cases'].items():
+                for body in rec_variants(case['items'], 6 if thorough else 3):
+                    bb = bytearray(base); bb[to:to + KS[tf['kind']]] = int(tv).to_bytes(KS[tf['kind']], 'little')
+                    out.append(bytes(bb) + body)
+        if it['t'] == 'tagged':
+            to, tf = fld[it['tag']]
+            lo, lf = fld[it['len']]
+            def msg(tv, data, extra_len=0, flags=None):
+                bb = bytearray(base)
+                bb[to:to + KS[tf['kind']]] = int(tv).to_bytes(KS[tf['kind']], 'little')
+                bb[lo:lo + KS[lf['kind']]] = (len(data) + extra_len).to_bytes(KS[lf['kind']], 'little')
+                if flags is not None and it['skip']:
+                    fo, ff = fld[it['skip'][0]]
+                    bb[fo] = flags
+                return bytes(bb) + data
+            per = 5 if thorough else 2
+            for tv, case in it['cases'].items():
+                for k, body in enumerate(rec_variants(case['items'], per)):
+                    out.append(msg(tv, body))
+                    if k == 0:
+                        out.append(msg(tv, body + b'\x07'))
+                        out.append(msg(tv, body[:-1]) if body else msg(tv, b'', 0))
+                        if it['skip']:
+                            out.append(msg(tv, b'', 0, it['skip'][1])); out.append(msg(tv, body, 0, it['skip'][1] | 1))
+            if it['sub']:
+                sidf = next(h for h in it['sub']['hdr'] if h['t'] == 'field' and h['name'] == it['sub']['sid'])
+                so = 0
+                for h in it['sub']['hdr']:
+                    if h is sidf:
+                        break
+                    so += KS[h['kind']] if h['t'] == 'field' else len(h['bytes'])
+                hz = rec_size(it['sub']['hdr'])
+                for sv, case in list(it['sub']['cases'].items()) + [('99', {'items': []})]:
+                    for k, body in enumerate(rec_variants(case['items'], per)):
+                        hdr = bytearray(hz); hdr[0] = rng.choice([1, 2, 3, 4, 5, 254]); hdr[1] = rng.randrange(4); hdr[so] = int(sv)
+                        out.append(msg(it['sub']['tag_value'], bytes(hdr) + body))
+                        if k == 0:
+                            out.append(msg(it['sub']['tag_value'], bytes(hdr) + body + b'\x07'))
+                            if it['skip']:
+                                out.append(msg(it['sub']['tag_value'], bytes(hdr), 0, it['skip'][1]))
+                out.append(msg(it['sub']['tag_value'], bytes(hz - 1)))
+            unk = (1 << (8 * KS[tf['kind']])) - 2
+            out.append(msg(unk, b''))
+            out.append(msg(unk, b'abc'))
+    # length-prefixed byte strings / strings: contents that exercise the unpack-side processing
+    cparts = [x for x in items if x['t'] == 'bytes' and x['len'][0] == 'count']
+    if cparts and all(x['len'][1] in fld for x in cparts):
+        def with_parts(datas, fix=None):
+            bb = bytearray(base)
+            for (o, w, v) in (fix or []):
+                bb[o:o + w] = int(v).to_bytes(w, 'little')
+            tail = b''
+            for x, dta in zip(cparts, datas):
+                co, cf = fld[x['len'][1]]
+                if len(dta) < (1 << (8 * KS[cf['kind']])):
+                    bb[co:co + KS[cf['kind']]] = len(dta).to_bytes(KS[cf['kind']], 'little')
+                tail += dta
+            return bytes(bb) + tail
+        for i, x in enumerate(cparts):
+            m = x.get('mode', ['raw'])
+            if m[0] == 'str':
+                pool = [b'A', b'FusionEngine 1.2', 'caf\u00e9'.encode(), '\u20ac\U0001F600'.encode(), b'a\x00', b'\x00', b'ab\x00\x00', b'a\x00b', b'\xff', b'\xc3', b'\xed\xa0\x80', b'\xc0\x80', b'\xf4\x90\x80\x80']
+            elif m[0] == 'rewrite':
+                src, dst = bytes(m[3]), bytes(m[4])
+                pool = [src + b'XY', src, dst + b'Z', src[:1], b'', src + dst, bytes([src[0]]) + b'\x00', b'plain text']
+            else:
+                pool = [b'', b'\x00', b'\x01\x02\x03', bytes(rng.randrange(256) for _ in range(17))]
+            for dta in pool:
+                datas = [b''] * len(cparts)
+                datas[i] = dta
+                if m[0] == 'rewrite':
+                    to, tf = fld[m[1]]
+                    for tv in list(m[2]) + [0, 255]:
+                        out.append(with_parts(datas, [(to, KS[tf['kind']], tv)]))
+                else:
+                    out.append(with_parts(datas))
+            if len(cparts) > 1:
+                out.append(with_parts([b'x' * (j + 1) for j in range(len(cparts))]))
     for (co, cw, eo, ew, v, esz) in elem:
         k = rng.choice([1, 2, 3])
         bb = bytearray(base)
@@ -746,6 +848,8 @@ def run_key(key, seed, tier, corpus=()):
         try:
             dinputs = gen_inputs_desc(cls, desc, rng, tier, (budget * 3) // 4, bool(desc.get('greedy')))
         except Exception as e:
+            import traceback
+            sys.stderr.write('gen_inputs_desc(%s) failed: %s\n' % (key, traceback.format_exc()[-600:]))
             dinputs = []
     inputs, ginfo = gen_inputs(key, cls, seeds, rng, tier, max(budget - len(dinputs), budget // 4))
     ginfo['field_aware'] = len(dinputs)
